@@ -8,7 +8,7 @@ import (
 	"strings"
 )
 
-func leanStrList(xs []string) string {
+func leanStrList14(xs []string) string {
 	q := make([]string, len(xs))
 	for i, x := range xs {
 		q[i] = fmt.Sprintf("%q", x)
@@ -118,7 +118,7 @@ func init() {
 			if !ok {
 				fail("pipes.go PipeData: select arm receiving from %s not found", a.ch)
 			}
-			fmt.Fprintf(b, "/-- PipeData `case err := <-%s`: ends closed always / additionally when err != io.EOF -/\ndef %s : List String := %s\ndef %sErr : List String := %s\n\n", a.ch, a.name, leanStrList(v[0]), a.name, leanStrList(v[1]))
+			fmt.Fprintf(b, "/-- PipeData `case err := <-%s`: ends closed always / additionally when err != io.EOF -/\ndef %s : List String := %s\ndef %sErr : List String := %s\n\n", a.ch, a.name, leanStrList14(v[0]), a.name, leanStrList14(v[1]))
 		}
 
 		// server muxHandler: does it close the target connection it opened?
@@ -189,6 +189,6 @@ func init() {
 				return true
 			})
 		}
-		fmt.Fprintf(b, "/-- acceptStream: error values that end the per-session accept loop -/\ndef acceptTerminalErrs : List String := %s\n/-- acceptStream: what the loop does on any other error from AcceptStream (\"continue\" = try again, \"return\" = stop) -/\ndef acceptOtherErr : String := %q\n", leanStrList(terminal), other)
+		fmt.Fprintf(b, "/-- acceptStream: error values that end the per-session accept loop -/\ndef acceptTerminalErrs : List String := %s\n/-- acceptStream: what the loop does on any other error from AcceptStream (\"continue\" = try again, \"return\" = stop) -/\ndef acceptOtherErr : String := %q\n", leanStrList14(terminal), other)
 	})
 }
